@@ -345,7 +345,9 @@ def run_impl_one(c):
     if c.get("cache"):
         kw["cache"] = DefaultInMemoryCache(64)
     pol_before = copy.deepcopy(c["policy"])
-    g = Guard(c["policy"], strict_types=bool(c.get("strict")), **kw)
+    # lax is the documented default: when the case is lax the argument is simply omitted
+    strict_kw = {"strict_types": True} if c.get("strict") else {}
+    g = Guard(c["policy"], **strict_kw, **kw)
     subj = Subject(id=req["subject"].get("id"), roles=list(req["subject"].get("roles") or []), attrs=dict(req["subject"].get("attrs") or {}))
     res = Resource(type=req["resource"].get("type"), id=req["resource"].get("id"), attrs=dict(req["resource"].get("attrs") or {}))
     ctx = Context(attrs=dict(req.get("context") or {}))
